@@ -6,7 +6,7 @@ import xh
 
 HARNESS = os.path.join(os.path.dirname(__file__), "harness", "h_c04.py")
 PURE = ["before", "after", "inside", "direct_child", "same_different", "trichotomy"]
-TREE_FNS = ["nth", "nth_str", "consecutive", "level"]
+TREE_FNS = ["nth", "nth_str", "consecutive_top", "consecutive_nested", "level"]
 N_SMALL, N_LARGE = 7, 4
 
 
@@ -23,14 +23,20 @@ def main(tier, only):
     N = 3 if tier == "quick" else 5
     to = 100 if tier == "quick" else 900
     cfgs = [dict(tag="paths", env={"VERIF_N": str(N)}, only=PURE, timeout=to)]
+    import sys
+    sys.path.insert(0, os.path.dirname(HARNESS))
+    import h_c04
+    # consecutive_top needs two leaves without a common ancestor below the root
+    fns = {k: [f for f in TREE_FNS if f != "consecutive_top" or len(t.children or ()) >= 2]
+           for k, t in enumerate(h_c04.TREES)}
     for k in range(N_SMALL):
-        cfgs.append(dict(tag="tree%d" % k, env={"VERIF_K": str(k)}, only=TREE_FNS, timeout=to))
+        cfgs.append(dict(tag="tree%d" % k, env={"VERIF_K": str(k)}, only=fns[k], timeout=to))
     if tier == "thorough":
         parts = 6
         for k in range(N_SMALL, N_SMALL + N_LARGE):
             for i in range(parts):
                 cfgs.append(dict(tag="tree%d.part%d" % (k, i), env={"VERIF_K": str(k), "VERIF_PART": "%d/%d" % (i, parts)},
-                                 only=TREE_FNS, timeout=to))
+                                 only=fns[k], timeout=to))
     run.bounds = dict(path_length_max=N, child_indices="unbounded non-negative ints",
                       tree_portfolio="7 hand-built trees (<= 11 nodes)" + (" + 4 parsed trees (20-45 nodes)" if tier == "thorough" else ""),
                       nth_n="any int; numeral strings 0..12", level_ops="EQ GE LE GT LT",
